@@ -83,6 +83,9 @@ def group_word(cx, expr, at_stmt, rotation=True, assume=None, _depth=0):
                 return None if s is None else [_inv(w) for w in s]
             if fn in HOMS and e.args:
                 return ev(e.args[0], nid, depth + 1)
+            if fn in ('rt2tr', 'Ab2M') and rotation and len(e.args) >= 2:
+                # the rotation part of the assembled matrix [[A, b], [0, 1]] is its first argument
+                return ev(e.args[0], nid, depth + 1)
         if isinstance(e, ast.Subscript) and rotation:
             # X[:3, :3] is the rotation part
             if matches('_X[:3, :3]', e) is not None or matches('_X[:2, :2]', e) is not None:
